@@ -1,7 +1,8 @@
 (* C11 — Handles are unique, die on close, and all resources are released once. Theorems only; proofs in Proofs/HandlesP.v *)
 From Coq Require Import List Bool Arith.
-From Sftp Require Import Srv.Handles Proofs.HandlesP.
+From Sftp Require Import Srv.Handles Proofs.HandlesP Srv.Shutdown Proofs.ShutdownP.
 Import ListNotations.
+Import Shutdown.
 
 (* over whole sessions (opens that succeed or fail, repeated and bogus closes, use after close, any number of
    simultaneously open handles): handles issued are pairwise distinct *)
@@ -29,6 +30,30 @@ Print Assumptions C11_all_closed_once_at_end.
 Theorem C11_session_invariant : forall ops, Forall (fun o => o <> EndSession) ops -> hinv (hrun ops).
 Proof. exact hinv_run. Qed.
 Print Assumptions C11_session_invariant.
+
+(* ===== "by the time Serve returns": the order of Serve's epilogue (Srv/Shutdown.v) =====
+   The theorems above take the end of the session as one step. In the code it is a protocol between goroutines: the receive
+   loop closes the channel, Serve waits on a WaitGroup for the workers and only then sweeps the handle table. Because the
+   counter is raised by Serve BEFORE each worker goroutine is created, for every number of workers, every number of queued
+   requests and every interleaving: nothing is served after the sweep, no handle is opened after it, and when the sweep runs
+   every worker has left, every received request has been served and (after the sweep) no handle is open. Tied by kind
+   prebuf (session readable at once, then EOF: the receive loop is done before any worker has run). *)
+Theorem C11_nothing_after_the_sweep : forall n tr s, shrun true (sh0 true n) tr = Some s ->
+  late s = 0 /\ leaked s = 0 /\
+  (swept s = true -> spawned s + running s = 0 /\ opened s = 0 /\ (0 < n -> queue s = 0)).
+Proof. exact nothing_after_the_sweep. Qed.
+Print Assumptions C11_nothing_after_the_sweep.
+
+Theorem C11_observer_sees_nothing : forall n tr s, shrun true (sh0 true n) tr = Some s -> swept s = true -> after_return s = (0, 0).
+Proof. exact observer_sees_nothing. Qed.
+Print Assumptions C11_observer_sees_nothing.
+
+(* raising the counter inside the goroutine instead lets Serve sweep before a worker has run: one request served after the
+   cleanup, one handle nobody closes *)
+Theorem C11_add_inside_goroutine_refuted :
+  exists tr s, shrun false (sh0 false 1) tr = Some s /\ swept s = true /\ after_return s = (1, 1).
+Proof. exact add_inside_goroutine_refuted. Qed.
+Print Assumptions C11_add_inside_goroutine_refuted.
 
 Example C11_nonvacuous :
   let s := hrun [OpenOk; OpenFail true; OpenOk; CloseH 1; Use 1; CloseH 1; CloseH 7] in
